@@ -269,10 +269,15 @@ def merge_history(case):
     with open(path, "w", encoding="utf-8", newline="") as f:
         f.write(case["text"])
     steps = []
-    for p in case["presets"]:
+    for si, p in enumerate(case["presets"]):
         before = read(path)
-        argv = ["init-config", "--non-interactive"] + (["--preset", p] if p else [])
-        r = runner.cli(argv, d)
+        if (si + case.get("i", 0)) % 3 == 2:
+            # the interactive form: the preset question is answered on stdin (Enter = the offered default, or the name typed in)
+            argv = ["init-config"] + (["--preset", p] if p else [])
+            r = runner.cli_real(argv, d, stdin_data=(b"\n" if si % 2 == 0 else ((p or "standard") + "\n").encode()))
+        else:
+            argv = ["init-config", "--non-interactive"] + (["--preset", p] if p else [])
+            r = runner.cli(argv, d)
         after = read(path)
         try:
             loaded = yaml.safe_load(after.decode("utf-8"))
